@@ -69,10 +69,18 @@ func zzState(r *Router[*hnd], m *zzModel) string {
 	return s
 }
 
-// ZZC17(n): n = setup*10000 + maxMethods*1000 + maxLen of the symbolic probe path.
+// zzC17Pre: registrations that are rejected for their method but may leave nodes behind.
+var zzC17Pre = []string{"", "/u/{nm}", "/u/{-id}", "/p/{y:\\d+}/e", "/u/{id}/x"}
+
+// ZZC17(n): n = pre*100000 + setup*10000 + maxMethods*1000 + maxLen of the symbolic probe path.
 func ZZC17(n int) {
 	r := zzNewRouter("r")
 	m := &zzModel{}
+	if pre := zzC17Pre[n/100000]; pre != "" {
+		p, rt := zzGuard(func() { r.Handle(pre, &hnd{id: 70}, nil, "BOGUS") })
+		zzv.Assert(p && !rt, "pre:unknown-method-accepted")
+	}
+	n %= 100000
 	for i, op := range zzC17Setups[n/10000] {
 		zzApply(r, m, op, i+1)
 	}
